@@ -219,6 +219,17 @@ def _reuse_plans():
                 plan.append(('ItemMoveMultiple', B.item_move_multiple(tgt, ['n3', 'n1', 'n2'], message_id='13')))
                 plan.append(('ItemInsert', B.item_insert(tgt, 'n2', [B.item('late')], message_id='14')))
                 plans.append((f'{cn}/{en}/{"restored" if restore else "same"}', ro(), plan))
+        # the same message again, unchanged: the same object at once, then a fresh copy under a new message ID, then an edit
+        import copy
+
+        def again(tree, mid):
+            t = copy.deepcopy(tree)
+            TJ.find(t, 'messageID')[2] = str(mid)
+            return t
+        tgt_ = 'S1' if cn == 'StorySend-existing' else story_of(cn)
+        plans.append((f'{cn}/sent-again-unchanged', ro(),
+                      [(cn.split('-')[0], carrier), ('reuse', 0), (cn.split('-')[0], again(carrier, 11)), (cn.split('-')[0], again(carrier, 12)),
+                       ('ItemInsert', B.item_insert(tgt_, 'n2', [B.item('late')], message_id='14'))]))
         # the carried story is deleted as a whole, the same object is added again, then its items are moved
         if story_of(cn) == 'N' and cn != 'StorySend':
             plans.append((f'{cn}/deleted-and-re-added', ro(),
